@@ -111,3 +111,20 @@ package trie
 //@   ensures [embed]  n != nil && !istype(n, hashNode) && !force && len(h.tmp) < 32 ==> result0 == n
 //@   ensures [hashed] n != nil && !istype(n, hashNode) && (force || len(h.tmp) >= 32) ==> istype(result0, hashNode)
 //@   ensures [noerr]  result1 == nil
+
+// Hashing a branch node replaces its 16 child slots by references; the 17th slot holds the branch's own value
+// and is part of the node as it is - it is never replaced by a hash (a value of 32 bytes or more would
+// otherwise be committed as its digest).
+//@ func hasher.hash
+//@   option trusted
+//@   modifies heap("trie.hasher"), heap("trie.NodeDatabase")
+
+//@ func hasher.hashChildren
+//@   property C02
+//@   requires h != nil
+//@   requires [typednil] (istype(original, *shortNode) ==> unbox(original, *shortNode) != nil) && (istype(original, *fullNode) ==> unbox(original, *fullNode) != nil)
+//@   requires [key] istype(original, *shortNode) ==> len(unbox(original, *shortNode).Key) < 1000000000 && forall k int :: 0 <= k && k < hexN(unbox(original, *shortNode).Key) ==> unbox(original, *shortNode).Key[k] < 16
+//@   loop 0: invariant 0 <= i && i <= 16 && fresh(collapsed) && fresh(cached) && collapsed != cached && collapsed.Children[16] == n.Children[16] && cached.Children[16] == n.Children[16]
+//@   ensures [value]  result2 == nil && istype(original, *fullNode) ==> istype(result0, *fullNode) && istype(result1, *fullNode) && unbox(result0, *fullNode).Children[16] == old(unbox(original, *fullNode).Children[16]) && unbox(result1, *fullNode).Children[16] == old(unbox(original, *fullNode).Children[16])
+//@   ensures [leaf]   !istype(original, *fullNode) && !istype(original, *shortNode) ==> result0 == original && result1 == original && result2 == nil
+//@   ensures [failed] result2 != nil ==> result0 == original && result1 == original
